@@ -37,8 +37,9 @@ fn leb(b: &[u8], at: usize) -> Option<(u32, usize)> {
 // @fns InstructionReader::next: all 256 opcodes, every decoder arm, the get_u8 / get_u8_array / get_u16 / get_var_u32 macros, out_of_bounds_access_error; operand layout of the jump, constant-load, Function and StringPush instructions against the byte layout the compiler's encoders are checked to produce (c05_varint_encode, c05_jump_*, c05_string_format_flags)
 // @bound buffers of 0..=9 arbitrary bytes, reader at ip 0; var-ints at most 5 bytes long (bytes 5 and 6 carry no continuation bit), which is what push_var_u32 emits
 // @assume std::fmt::format stubbed (error messages are not the subject); var-int operands are at most 5 bytes (longer ones are never emitted by the compiler and would overflow the decoder's shift)
-// @timeout 3000
-// @mem 20
+// @timeout 5400
+// @mem 36
+// @tier thorough
 #[kani::proof]
 #[kani::unwind(11)]
 #[kani::stub(std::fmt::format, stub_format)]
